@@ -277,6 +277,17 @@ def run(ctx, prog):
                            short, '.'.join(r['path'][1:]) if r['path'] else '?', r['name'], r['name'], r['name']),
                        sample='%s."%s" -> &%s' % (short, r['name'], '.'.join(r['path'][1:]) if r['path'] else '?'))
         ctx.floor('registered_parameters<%s>' % scalar, n_regs, 700)
+    # ---- S3: defaults complete, constant, valid and fully redefined by init_var (C14.K4 evaluated on the same tree)
+    from ..report import Ctx
+    from . import c14
+    sub = Ctx('C14', ctx.tier)
+    c14.run(sub, prog)
+    k4 = sub.rule_counts.get('C14.K4', [0, 0])
+    bad = [v for v in sub.violations if v['rule'] == 'C14.K4']
+    for v in bad:
+        ctx.ob('C11.S3', v['key'], False, v['where'], v['msg'])
+    ctx.ob('C11.S3', 'all-defaults', not bad, '', '%d default obligations fail' % len(bad), sample='%d default obligations of C14.K4 discharged (masa_init_param restores every scalar and vector parameter)' % k4[1])
+    ctx.floor('default_obligations', k4[0], 1500)
 
 
 def powerlaw_registrations(ctx, prog, cls, scalar):
